@@ -49,13 +49,15 @@ PLATS = ["Ledger", "SGX"]
 PINS = {"valid": "abcd1234", "short": "abc1234", "digits": "12345678", "nonalnum": "abcd123!",
         "long": "abcd12345", "newline-tail": "abcdefg\n", "cr-tail": "abcdef1\r",
         "nul-inside": "abc\x00efgh", "space-head": " bcdefgh", "unicode-digit": "abcdefg١",
+        # 8 bytes once encoded, made of characters that are letters / numerics to Unicode
+        "latin1-letter": "abc123ü", "superscripts": "pas1²³", "digits-and-accent": "123456ê",
         "typed-valid": None, "typed-bad-then-valid": None}
 ANSWERS = {"yes": "yes\n", "Yes": "Yes\n", "no": "no\n", "n": "n\n",
            "other-then-yes": "maybe\nYES\n", "other-then-no": "x\nNo\n",
            "y-then-no": "y\nno\n", "empty-then-no": "\nn\n"}
 DEVICE_PIN = b"devp1234"
 _SEEDS_SEEN = set()
-TYPED_OK = "typd1234"
+TYPED_OK = "devp1234"       # what the operator types when asked: the device's PIN
 SEEDISH = {0x44: "SEED", 0x07: "WIPE", 0xA0: "SGX_ONBOARD"}
 PINISH = {0x41: "SEND_PIN", 0xFE: "UNLOCK", 0xA3: "SGX_UNLOCK", 0x08: "CHANGE_PIN",
           0xA5: "SGX_CHANGE_PASSWORD"}
@@ -102,12 +104,29 @@ SPEC = {"root": 1, "device": 2, "att": 3, "wallet": [[p, i + 10] for i, p in
 
 
 def answer_is_yes(ans):
+    """True / False, or None when the operator's lines include a bare 'y' before anything
+    decisive (whether that is 'an explicit yes' is not for the harness to say)."""
     for line in ANSWERS[ans].lower().split("\n"):
         if line in ("n", "no"):
             return False
         if line == "yes":
             return True
+        if line == "y":
+            return None
     return False
+
+
+class Options:
+    """Command-line options as the parsers hand them over: the ones a case sets, and the
+    parsers' default (None) for every other."""
+
+    def __init__(self, **kw):
+        self.__dict__.update(kw)
+
+    def __getattr__(self, name):
+        if name.startswith("__"):
+            raise AttributeError(name)
+        return None
 
 
 def run_case(c):
@@ -136,13 +155,16 @@ def run_case(c):
     if pin_class == "typed-valid":
         queue = [TYPED_OK]
     elif pin_class == "typed-bad-then-valid":
-        queue = ["bad!", "1234567", TYPED_OK] if not c["any_pin"] else ["bad!", "1234567"]
+        queue = ["bad!", "1234567", TYPED_OK]
     else:
         queue = [TYPED_OK]
     new_queue = list(queue)
 
     def fake_getpass(prompt=""):
         # once the operator has settled on a PIN, that is what they type from then on
+        if cmd == "onboard" and g.pin_set is not None:
+            # the device has been given a PIN: from now on that is the PIN the operator types
+            return g.pin_set.decode("utf-8", "replace")
         v = new_queue.pop(0) if new_queue else (typed[-1] if typed else TYPED_OK)
         typed.append(v)
         return v
@@ -159,9 +181,9 @@ def run_case(c):
     opt_pin = PINS[pin_class]
     if cmd in ("unlock", "changepin", "pubkeys") and pin_class == "valid":
         opt_pin = DEVICE_PIN.decode() if c.get("correct", True) else "wrong123"
-    opts = types.SimpleNamespace(pin=opt_pin, any_pin=c["any_pin"], verbose=False, no_exec=False,
-                                 no_unlock=c.get("no_unlock", False),
-                                 output_file_path=os.path.join(d, "out.txt"), new_pin=None)
+    opts = Options(pin=opt_pin, any_pin=c["any_pin"], verbose=False, no_exec=False,
+                   no_unlock=c.get("no_unlock", False),
+                   output_file_path=os.path.join(d, "out.txt"), new_pin=None)
     if cmd == "changepin":
         np = c["new_pin"]
         opts.new_pin = PINS[np]
@@ -206,11 +228,20 @@ def run_case(c):
         op_pin = None      # typed
     # ---- onboarding
     pin_given_ok = PINS[pin_class] is None or policy_ok(PINS[pin_class].encode())
-    onboard_allowed = (cmd == "onboard" and c["mode"] == BOOT and c["echo"] and
-                       c["onb"] is False and answer_is_yes(c["answer"]) and pin_given_ok)
-    if seedish and not onboard_allowed:
+    # a PIN outside the policy given together with the any-PIN flag: the statement lets it
+    # through, the command's help restricts the flag to PIN changes - not asserted either way
+    pin_undecided = not pin_given_ok and c["any_pin"]
+    yes = answer_is_yes(c["answer"]) if cmd == "onboard" else None
+    onboard_base = (cmd == "onboard" and c["mode"] == BOOT and c["echo"] and c["onb"] is False)
+    onboard_allowed = bool(onboard_base and yes is True and pin_given_ok)
+    onboard_maybe = bool(onboard_base and yes is not False and (pin_given_ok or pin_undecided)
+                         and not onboard_allowed)
+    if seedish and not (onboard_allowed or onboard_maybe):
         raise Violation("seed-or-wipe-sent-without-preconditions", "%r: %s" % (
             desc, [SEEDISH[e[2][1]] for e in seedish][:3]))
+    if cmd == "onboard" and pinish and not (onboard_allowed or onboard_maybe):
+        raise Violation("onboard-pin-sent-without-preconditions", "%r: %s" % (
+            desc, [PINISH[e[2][1]] for e in pinish][:3]))
     # ---- every PIN-carrying APDU goes to a device in bootloader mode that is onboarded
     #      (or is being onboarded under the onboarding preconditions)
     for e in pinish:
@@ -220,7 +251,7 @@ def run_case(c):
         if mode != BOOT or w.mode_error:
             raise Violation("pin-sent-outside-bootloader", "%r: %s in mode %r" % (
                 desc, PINISH[e[2][1]], mode))
-        if onb is not True and not onboard_allowed:
+        if onb is not True and not (onboard_allowed or onboard_maybe):
             raise Violation("pin-sent-to-device-not-onboarded", "%r: %s" % (
                 desc, PINISH[e[2][1]]))
     # ---- PIN policy of onboarding and PIN change
@@ -233,12 +264,13 @@ def run_case(c):
             raise Violation("pin-change-by-other-command", repr(desc))
         if not c["any_pin"] and not policy_ok(np_):
             raise Violation("changepin-pin-violates-policy", "%r: %r" % (desc, np_))
-        if c["any_pin"] and not all(ch in ALNUM for ch in np_):
-            raise Violation("changepin-pin-not-alphanumeric", "%r: %r" % (desc, np_))
     # ---- carried out when the preconditions hold
     nt = False
-    if cmd == "onboard":
-        if onboard_allowed:
+    if cmd == "onboard" and onboard_maybe and not seedish:
+        labels.append("onboard:undecided-refused")
+    elif cmd == "onboard":
+        if onboard_allowed or onboard_maybe:
+            labels.append("onboard:undecided-done" if onboard_maybe else "onboard:decided")
             nt = True
             want_pin = (PINS[pin_class] or (typed[-1] if typed else None))
             if exc is not None:
@@ -260,18 +292,25 @@ def run_case(c):
                           else "seed:other-source")
             labels.append("onboard:done")
         else:
-            if exc is None:
-                raise Violation("onboard-returned-normally-without-preconditions", repr(desc))
+            # how the command ends when it does nothing is not prescribed
+            labels.append("onboard:raised" if exc is not None else "onboard:returned")
             fails = sum([c["mode"] != BOOT, not c["echo"], c["onb"] is not False,
-                         not answer_is_yes(c["answer"]), not pin_given_ok])
+                         yes is False, not (pin_given_ok or pin_undecided)])
             nt = fails == 1
             labels.append("onboard:refused")
     elif cmd == "unlock":
         pre = c["mode"] == BOOT and c["onb"] is True
-        pin_ok = PINS[pin_class] is None or all(ch in ALNUM for ch in opt_pin.encode())
-        if pre and c["echo"] and pin_ok:
+        final_pin = opt_pin if PINS[pin_class] is not None else (typed[-1] if typed else None)
+        pin_ok = final_pin is not None and all(ch in ALNUM for ch in final_pin.encode())
+        right_pin = final_pin is not None and final_pin.encode() == DEVICE_PIN
+        if pre and pin_ok and not c["echo"]:
+            # the statement asks for an echo check of onboarding only
+            labels.append("unlock:bad-echo-" + ("refused" if exc is not None else "done"))
+            if exc is None and not w.unlocked:
+                raise Violation("unlock-reported-success-but-locked", repr(desc))
+        elif pre and pin_ok:
             nt = True
-            if PINS[pin_class] is None or not c.get("correct", True) or pin_class != "valid":
+            if not right_pin:
                 if exc is None and not w.unlocked:
                     raise Violation("unlock-reported-success-but-locked", repr(desc))
                 labels.append("unlock:wrong-pin")
@@ -279,21 +318,27 @@ def run_case(c):
                 if exc is not None or not w.unlocked:
                     raise Violation("unlock-not-carried-out", "%r: %r" % (desc, exc))
                 labels.append("unlock:done")
+                if PINS[pin_class] is None:
+                    labels.append("unlock:done-with-typed-pin")
         else:
-            if exc is None:
-                raise Violation("unlock-returned-normally-without-preconditions", repr(desc))
             labels.append("unlock:refused")
-            nt = sum([c["mode"] != BOOT, c["onb"] is not True, not c["echo"]]) == 1
+            labels.append("unlock:raised" if exc is not None else "unlock:returned")
+            nt = sum([c["mode"] != BOOT, c["onb"] is not True]) == 1
     elif cmd == "changepin":
         np_class = c["new_pin"]
         given = PINS[np_class]
         if given is not None:
-            valid_new = policy_ok(given.encode()) if not c["any_pin"] else \
-                all(ch in ALNUM for ch in given.encode())
+            valid_new = policy_ok(given.encode())
+            if not valid_new and c["any_pin"]:
+                # any PIN was explicitly allowed: alphanumeric ones are accepted as the help
+                # says; whether others are is not prescribed
+                valid_new = True if all(ch in ALNUM for ch in given.encode()) else None
         else:
             valid_new = True
         pre = c["mode"] == BOOT and c["onb"] is True and c["echo"] and not c["no_unlock"]
-        if pre and valid_new:
+        if pre and valid_new is None:
+            labels.append("changepin:undecided-" + ("sent" if newpins else "refused"))
+        elif pre and valid_new:
             nt = True
             want = given if given is not None else (typed[-1] if typed else None)
             if exc is not None or w.pin != want.encode():
@@ -301,7 +346,7 @@ def run_case(c):
                                 "%r" % (desc, exc, w.pin, want))
             labels.append("changepin:done")
         else:
-            if not valid_new and newpins:
+            if valid_new is False and newpins:
                 raise Violation("changepin-sent-invalid-pin", repr(desc))
             labels.append("changepin:refused" if exc is not None else "changepin:other")
             nt = not valid_new and pre
@@ -329,7 +374,8 @@ def run_case(c):
 
 REQUIRED_LABELS = {t: ["onboard:done", "onboard:refused", "unlock:done", "unlock:refused",
                        "unlock:wrong-pin", "changepin:done", "changepin:refused",
-                       "pubkeys:written", "pubkeys:refused", "plat:Ledger", "plat:SGX"]
+                       "pubkeys:written", "pubkeys:refused", "plat:Ledger", "plat:SGX",
+                       "unlock:done-with-typed-pin", "onboard:decided"]
                    for t in ("quick", "thorough")}
 
 
